@@ -2,6 +2,7 @@ import RbV.Spec.RankSelect
 import RbV.Lemmas.RankSelect
 import RbV.Lemmas.RankSelectModel
 import RbV.Lemmas.Wavelet
+import RbV.Lemmas.Bytes8
 /-!
 # C17 — rank/select and wavelet-matrix queries equal naive counting
 
@@ -123,6 +124,18 @@ theorem chunks_getD (bits : List Bool) (b : Nat) : (chunks bits).getD b [] = get
     simp only [this, Option.map_none, Option.getD_none]
     unfold getBlock
     rw [List.drop_eq_nil_of_le (by omega)]; rfl
+
+/-- the model's blocks are lists of at most 8 bits; these are exactly the `u8` operations of the code on the byte
+`get_block` returns: `count_ones`, `count_zeros` (padding counted), `(b & ((2u16 << j) - 1) as u8).count_ones()`
+and the bit test `b & (1 << i) != 0` -/
+theorem block_ops_are_byte_ops (blk : List Bool) (h : blk.length ≤ 8) :
+    RbV.Lemmas.Bytes8.popcount8 (RbV.Lemmas.Bytes8.byteOf blk) = countOnes blk ∧
+    8 - RbV.Lemmas.Bytes8.popcount8 (RbV.Lemmas.Bytes8.byteOf blk) = countZeros blk ∧
+    (∀ j, j < 8 → RbV.Lemmas.Bytes8.popcount8 (RbV.Lemmas.Bytes8.byteOf blk &&& RbV.Lemmas.Bytes8.rankMask j)
+      = countOnes (blk.take (j + 1))) ∧
+    (∀ i, i < 8 → ((RbV.Lemmas.Bytes8.byteOf blk &&& (1 <<< i)) != 0) = blk.getD i false) :=
+  ⟨RbV.Lemmas.Bytes8.popcount8_byteOf blk h, RbV.Lemmas.Bytes8.countZeros_byteOf blk h,
+   fun j hj => RbV.Lemmas.Bytes8.popcount8_masked blk j h hj, fun i hi => RbV.Lemmas.Bytes8.bit_test blk i hi⟩
 
 /-- [A] `superblocks`: entry `m` is the number of `t`-bits before bit `m·32k` (for the 0-table the zero padding of
 the last byte never enters an entry) -/
